@@ -866,10 +866,20 @@ def check_inverse(ctx, fi, cd, searched, kind):
         S.inits = dict(S.inits)
         S.inits[sound], S.inits[unsound] = grown
     init_sound = ev.ev(S.inits[sound])
+    closed_form = False
     if kind == 'rho':
         ok = init_sound.is_rat() and init_sound.rat().iszero()
+        if not ok:
+            # the standard bound solved for rho: rho + 2 sqrt(rho L) <= eps  iff  sqrt(rho) <= sqrt(L + eps) - sqrt(L),  L = log(1/delta)
+            want2 = SymEval({'eps': sym(other_param), 'delta': sym(delta_param)}, atoms, strict=True).ev(
+                parse('(sqrt(log(1/delta) + eps) - sqrt(log(1/delta)))**2'))
+            try:
+                ok = closed_form = init_sound.eq(want2)
+            except AnalysisError:
+                ok = False
         ctx.ob('sound-seed', fi, S.where(sound), ok,
-               'the sound end of the rho search must start at 0 (cdp_delta(0, eps) = 0 <= delta); starts at %s' % init_sound,
+               'the sound end of the rho search must start at 0 (cdp_delta(0, eps) = 0 <= delta) or at the standard bound solved for rho, '
+               '(sqrt(log(1/delta) + eps) - sqrt(log(1/delta)))^2; starts at %s' % init_sound,
                construct='seed of the sound end of ' + fi.name)
     else:
         want = SymEval({'rho': sym(other_param), 'delta': sym(delta_param)}, atoms, strict=True).ev(
@@ -883,6 +893,10 @@ def check_inverse(ctx, fi, cd, searched, kind):
     ok = all(c.sign_definite_nonneg() for c, r_ in d.terms)
     if grown is not None:
         ok = True          # established by the growth loop: the other end is the first value that fails the acceptance test
+    if closed_form and not ok:
+        # the closed form is at most eps (it solves rho + 2 sqrt(rho L) = eps): an upper end of at least eps is on the right side
+        d2 = init_unsound - sym(other_param)
+        ok = all(c.sign_definite_nonneg() for c, r_ in d2.terms)
     ctx.ob('sound-side', fi, S.where(unsound), ok,
            'the other end `%s` must start on the %s side of the sound end' % (unsound, 'upper' if kind == 'rho' else 'lower'),
            construct='seed of the other end of ' + fi.name)
